@@ -321,7 +321,7 @@ def r2_eval(run: Run, rt):
     """C04.R2/R3 decided by abstract evaluation (engine F) of _cell_preprocessor: an override hit returns the stored value --
     whatever it is, 0 / FALSE / '' / None included -- and never runs the formula; a miss runs the generated member once; a cell
     with neither gives the blank.  Independent of how the lookup is written (in-test, try/except, get with a sentinel ...)."""
-    from ..finite import Evaluator, AV, const_av, Unknown, AbsRaise
+    from ..finite import evaluator_for, Evaluator, AV, const_av, Unknown, AbsRaise
     done = []
     for cp in rt.copies():
         fn = cp.members.get('_cell_preprocessor')
@@ -339,7 +339,7 @@ def r2_eval(run: Run, rt):
             def member(args, calls=calls):
                 calls.append(args)
                 return AV('str', text='other', val='CALC')
-            ev = Evaluator(cp.members, hooks={'EmptyCell': lambda e, a: AV('blank', sign='zero')}, max_depth=6)
+            ev = evaluator_for(cp, hooks={'EmptyCell': lambda e, a: AV('blank', sign='zero')}, max_depth=6)
             args_map = AV('dict', items=((AV('tuple', items=(U, ov)),) if ov is not None else ()) +
                           (AV('tuple', items=(W, const_av(1))),))
             meth = AV('dict', items=(AV('tuple', items=(U, AV('func', val=('native', member)))),) if has_member else ())
